@@ -1465,6 +1465,58 @@ def _component_constraint(guards, var):
     return P, N
 
 
+def _fanout_direct_find(f, cfg, cn, c, nodep):
+    """`__find(sub, S, R)` with sub the loop variable of `for sub in PreOrderIter(node)`, S = REM[0], R = REM[1:], REM the list
+    the sibling `__glob(sub, REM)` gets, on a path whose guards exclude '', '.', '..' and '**' for S (is_wildcard(S) false
+    excludes '**'), inside a try that drops ChildResolverError"""
+    from .common import resolve_local
+    loops = [x for x in walk_own(f.node) if isinstance(x, ast.For) and isinstance(x.target, ast.Name) and isinstance(x.iter, ast.Call)
+             and norm(x.iter.func) == "PreOrderIter" and x.iter.args and norm(x.iter.args[0]) == nodep and any(y is c for y in ast.walk(x))]
+    if len(loops) != 1 or norm(c.args[0]) != loops[0].target.id:
+        return False
+    sib = [g for g in ast.walk(loops[0]) if isinstance(g, ast.Call) and norm(g.func).endswith("__glob") and len(g.args) == 2
+           and norm(g.args[0]) == loops[0].target.id]
+    if len(sib) != 1:
+        return False
+    rem = norm(sib[0].args[1])
+    s_, r_ = resolve_local(f, c.args[1]), resolve_local(f, c.args[2])
+    if isinstance(s_, ast.IfExp) and norm(s_.test) == rem:
+        s_ = s_.body  # `REM[0] if REM else ''`
+    if norm(s_) != "%s[0]" % rem or norm(r_) != "%s[1:]" % rem or not isinstance(c.args[1], ast.Name):
+        return False
+    sv = c.args[1].id
+    tries = [t for t in ast.walk(loops[0]) if isinstance(t, ast.Try) and any(y is c for b in t.body for y in ast.walk(b))
+             and any(h.type is not None and norm(h.type) == "ChildResolverError" for h in t.handlers)]
+    if not tries:
+        return False
+    excluded = set()
+
+    def visit(cond, outcome, depth=0):
+        if depth > 4:
+            return
+        if isinstance(cond, ast.Name):
+            r = resolve_local(f, cond)
+            if r is not cond:
+                visit(r, outcome, depth + 1)
+            return
+        if isinstance(cond, ast.UnaryOp) and isinstance(cond.op, ast.Not):
+            visit(cond.operand, not outcome, depth + 1)
+            return
+        if isinstance(cond, ast.BoolOp) and ((isinstance(cond.op, ast.And) and outcome) or (isinstance(cond.op, ast.Or) and not outcome)):
+            for v in cond.values:
+                visit(v, outcome, depth + 1)
+            return
+        if isinstance(cond, ast.Call) and norm(cond.func).endswith("is_wildcard") and len(cond.args) == 1 and norm(cond.args[0]) == sv and not outcome:
+            excluded.add("**")
+            return
+        P, N = _component_constraint([(cond, outcome, None)], sv)
+        if P is None:
+            excluded.update(N)
+    for g_, o_, _n in cfg.guards_of(cn):
+        visit(g_, o_)
+    return {"", ".", "..", "**"} <= excluded
+
+
 def rule_R9_component_dispatch(ctx, typer, which):
     """each path component is interpreted as specified: '..' moves to the parent, '' and '.' stay, any other component is
     looked up among the children (get: the walk loop; glob: the recursive descent, where '**' additionally fans out
@@ -1597,6 +1649,10 @@ def rule_R9_component_dispatch(ctx, typer, which):
                 seen["find"] += 1
                 if P is None and N == SPECIAL | {"**"} and norm(c.args[0]) == nodep and norm(c.args[1]) == comp:
                     ctx.inst("R9", f, c, "every other component is matched against the children")
+                elif _fanout_direct_find(f, cfg, cn, c, nodep):
+                    # inside the '**' fan-out: __find(subnode, REM[0], REM[1:]) in place of __glob(subnode, REM) when REM[0] is an
+                    # ordinary component - what __glob would do next, minus an error that the fan-out drops anyway
+                    ctx.inst("R9", f, c, "'**' fan-out: the next ordinary component is matched against the children of the subtree node directly")
                 else:
                     ctx.viol("R9", f, c, "children are matched for components %s; specified: every component except '..', '', '.', '**'" % (
                         sorted(P) if P is not None else "other than %s" % sorted(N)))
